@@ -307,12 +307,12 @@ def conjSimple (v : VT) (refl : Bool) : Except Crash ConjRes :=
     | some e => do
       let _ ← isReflexive v refl
       pure (.form (l.stem ++ e))
-    | none => .error .typeError
+    | none => if nonFiniteNoneIsMorpho then .ok .morpho else .error .typeError
   | .pr => match l.pr with
     | some e => do
       let _ ← isReflexive v refl
       pure (.form (l.stem ++ e))
-    | none => .error .typeError
+    | none => if nonFiniteNoneIsMorpho then .ok .morpho else .error .typeError
   | _ => .ok .morpho
 
 def tokOfConj (v : VT) : ConjRes → Tok
